@@ -132,12 +132,31 @@ func drawWHCase(rt *rapid.T, thorough bool) whCase {
 		p.Hooks = append(p.Hooks, h)
 	}
 	nw := rapid.IntRange(p.NKeys, p.NKeys+1).Draw(rt, "nwriters")
+	// a share of the cases is long: the first writer alone causes more
+	// notifications than the default fence LIMIT of 100 on every hook of key 0
+	long := rapid.IntRange(0, 5).Draw(rt, "long") == 0
+	if long {
+		for i := range p.Hooks {
+			if p.Hooks[i].Key == 0 {
+				p.Hooks[i].Fence.Detect = nil
+			}
+		}
+	}
 	for i := 0; i < nw; i++ {
 		w := whWriter{Key: i % p.NKeys}
 		nb := rapid.IntRange(2, 5).Draw(rt, "nbursts")
+		if long && i == 0 {
+			nb = rapid.IntRange(12, 14).Draw(rt, "nlongbursts")
+		}
 		for b := 0; b < nb; b++ {
 			bu := whBurst{Pipe: rapid.IntRange(0, 3).Draw(rt, "pipe") != 0, PauseMs: rapid.SampledFrom([]int{0, 0, 5, 30, 120, 400}).Draw(rt, "pause")}
 			n := rapid.IntRange(3, 12).Draw(rt, "burstlen")
+			if long && i == 0 {
+				n, bu.Pipe = rapid.IntRange(10, 12).Draw(rt, "longburstlen"), true
+				if bu.PauseMs > 30 {
+					bu.PauseMs = 30
+				}
+			}
 			for k := 0; k < n; k++ {
 				wr := whWrite{Kind: "set", Obj: rapid.IntRange(0, 3).Draw(rt, "obj"), Pos: rapid.IntRange(0, 7).Draw(rt, "pos")}
 				switch x := rapid.IntRange(0, 49).Draw(rt, "wkind"); {
@@ -414,13 +433,25 @@ func hookFenceArgs(f fenceSpec, key string) []string {
 	if f.Cmd != "NEARBY" {
 		return fenceArgs(f, key)
 	}
-	a := []string{"NEARBY", key, "FENCE"}
+	a := []string{"NEARBY", key}
+	if f.Limit > 0 {
+		a = append(a, "LIMIT", strconv.Itoa(f.Limit))
+	}
+	a = append(a, "FENCE")
 	if f.Detect != nil {
 		a = append(a, "DETECT", strings.Join(f.Detect, ","))
 	}
 	center := float64(f.Lo+f.Hi) / 2
 	radius := (float64(f.Hi-f.Lo)/2 + 0.4) * 111000
 	return append(a, "POINT", "0", fmt.Sprintf("%.1f", center), fmt.Sprintf("%.0f", radius))
+}
+
+// twinFenceArgs is the same fence for the twin channel, but with a LIMIT far
+// above anything a case produces: the twin is the reference, it must not
+// share a limit-related fate with the hook.
+func twinFenceArgs(f fenceSpec, key string) []string {
+	f.Limit = 1000000
+	return hookFenceArgs(f, key)
 }
 
 type whRun struct {
@@ -485,7 +516,7 @@ func runWebhook(p whCase) *outcome {
 		if h.Meta {
 			meta = []string{"META", "fleet", fmt.Sprintf("f%d", i), "META", "a", "b c"}
 		}
-		if err := mustOK(ctl.Do(append(append([]string{"SETCHAN", tw.name}, meta...), fargs...)...)); err != nil {
+		if err := mustOK(ctl.Do(append(append([]string{"SETCHAN", tw.name}, meta...), twinFenceArgs(h.Fence, keys[h.Key])...)...)); err != nil {
 			panic(fmt.Sprintf("SETCHAN: %v", err))
 		}
 		v, err := tw.conn.Do("SUBSCRIBE", tw.name)
@@ -716,6 +747,12 @@ func (r *whRun) verify() {
 		}
 		// evidence
 		o.count("notifications-delivered-200", len(G))
+		if len(G) > 100 {
+			o.label("hook-with>100-notifications")
+		}
+		if h.Fence.Limit > 0 && len(G) > h.Fence.Limit {
+			o.label("hook-notified-beyond-its-LIMIT")
+		}
 		o.count("requests", len(arrivals))
 		fails, midBurst := 0, false
 		var shape []string
